@@ -30,11 +30,11 @@ TRUSTED = [
     "C05 world: a call sees (a) the table when the caller's identity is checked and ppid_map() runs, (b) a possibly different table for the per-child look-ups; kernel events happen between psutil's file reads, not inside one (DESIGN §4.6). parent()/parents(): every look-up (identity check, own stat, Process(ppid)) of every step has its own world",
     "C05 times: create_time() is a float `starttime/CLOCK_TICKS + boot_time`; the model compares the integer starttime ticks. The harness checks on every run that this float map is strictly increasing over the tick range it uses",
     "C05 stat renderer (Spec/C05Stat.lean): transcription of the documented /proc/<pid>/stat layout; the Python renderer of the harness is checked byte-for-byte against it on every stat case",
-    "C05 errors: a stat read is gone / unreadable (EACCES, injected at psutil's open_binary) / read; `Process(pid)` and the `create_time()` that follows are one look-up; the caller object is built on a readable stat; the ENOENT-then-zombie two-read race of wrap_exceptions (ZombieProcess) is not modelled (C03)",
+    "C05 errors: a stat read is gone (no /proc/<pid>, or the directory still listed with its stat file gone) / unreadable (EACCES, injected at psutil's open_binary) / read; `Process(pid)` and the `create_time()` that follows are one look-up; the caller object is built on a readable stat; the ENOENT-then-zombie two-read race of wrap_exceptions (ZombieProcess) is not modelled (C03)",
     "C05 parents() while the table changes: the worlds of each look-up are those the harness recorded at its hooks (construction of _pslinux.Process, _proc.ppid()); inside oneshot() a stat memo filled by another method is handed to the model as the table that method ran on (PStep.withStatMemo)",
 ]
 ASSUMPTIONS = [
-    "listed PIDs are unique; a vanished process is a missing /proc/<pid>; an unreadable stat file exists but its open raises EACCES",
+    "listed PIDs are unique; a vanished process is a missing /proc/<pid> or a listed /proc/<pid> without stat file; an unreadable stat file exists but its open raises EACCES",
     "parent()/parents(): `_LOWEST_PID`, once cached, is still the lowest listed PID (true on every real system: PID 1/0 never goes away); cases with a stale cache are compared with the model only",
     "int()/float() of a stat token are modelled for the decimal tokens the kernel writes",
 ]
@@ -1198,11 +1198,11 @@ def correspond(ctx, res):
         dc, dt = dyn_corpus()
         cases += dc
         tags += dt
-        dc, dt = gen_dyn_cases(ctx.rng, ctx.n(250, 3000))
+        dc, dt = gen_dyn_cases(ctx.rng, ctx.n(250, 6000))
         cases += dc
         tags += dt
         # ---- random
-        n_tables = ctx.n(640, 8000)
+        n_tables = ctx.n(640, 12000)
         for i in range(n_tables):
             tf = TABLE_FAMILIES[i % len(TABLE_FAMILIES)]
             hf = HIST_FAMILIES[(i // len(TABLE_FAMILIES) + i) % len(HIST_FAMILIES)]
@@ -1265,6 +1265,21 @@ def correspond(ctx, res):
                         cases.append(mk_dyn(call, pid, t0, mk=mkr, family="exhaustive-states"))
                         tags.append("exhaustive-states")
         ex_desc.append("%d (2-process table, states in {running, zombie, unreadable, listed with the stat file gone}²)" % cnt)
+        if ctx.tier != "quick":
+            # thorough: the same over every 3-process table (chains: an unreadable / exiting grandparent, …); one caller
+            # per table (rotating), the four calls
+            cnt = 0
+            for rows in exhaustive_tables(3, [2, 3, 5]):
+                for sts in itertools.product("RZXG", repeat=3):
+                    i = cnt % 3
+                    cnt += 1
+                    t0 = [rows[j] + [sts[j]] for j in range(3)]
+                    mkr = [list(r) for r in t0]
+                    mkr[i][3] = "R" if mkr[i][3] in "XG" else mkr[i][3]
+                    for call in CALLS:
+                        cases.append(mk_dyn(call, rows[i][0], t0, mk=mkr, family="exhaustive-states"))
+                        tags.append("exhaustive-states")
+            ex_desc.append("%d (3-process table, states in {R,Z,X,G}³; caller rotates)" % cnt)
         # ---- exhaustive: every 2-process table seen by process_iter() × every 2-process table seen by the call
         cnt = 0
         for old in exhaustive_tables(2, [2, 3]):
